@@ -134,8 +134,41 @@ fn expr_candidates(x: &X) -> Vec<X> {
 }
 
 /// Candidate simplifications, most drastic first.
+fn remove_rule_range(s: &Scenario, start: usize, end: usize) -> Option<Scenario> {
+    let mut cur = s.clone();
+    for i in (start..end).rev() {
+        cur = remove_rule(&cur, i)?;
+    }
+    Some(cur)
+}
+
 pub fn candidates(s: &Scenario) -> Vec<Scenario> {
+    candidates_staged(s, false)
+}
+
+/// `coarse_only`: structural removals only (rules, tasks, faults, suspensions, schedule) — cheap to
+/// enumerate even for very large scenarios; the fine stage adds expression and script simplification.
+pub fn candidates_staged(s: &Scenario, coarse_only: bool) -> Vec<Scenario> {
     let mut out = vec![];
+    // rules: whole chunks first
+    let nr = s.rules.len();
+    let mut chunk = nr / 2;
+    while chunk >= 2 {
+        let mut start = 0;
+        while start < nr {
+            let end = (start + chunk).min(nr);
+            if end - start < nr {
+                if let Some(n) = remove_rule_range(s, start, end) {
+                    out.push(n);
+                }
+            }
+            start = end;
+        }
+        chunk /= 2;
+        if out.len() > 64 {
+            break;
+        }
+    }
     for i in 0..s.rules.len() {
         if let Some(n) = remove_rule(s, i) {
             out.push(n);
@@ -250,6 +283,9 @@ pub fn candidates(s: &Scenario) -> Vec<Scenario> {
             n.tasks[t].start = Start::Now;
             out.push(n);
         }
+    }
+    if coarse_only {
+        return out;
     }
     for (ri, r) in s.rules.iter().enumerate() {
         for e in expr_candidates(&r.expr) {
